@@ -30,9 +30,10 @@ import (
 )
 
 // GrpcCodeSweep lists the codes of the WrapWithGrpcCode#k ops.
-// Code 0 (OK) is left out: gRPC defines OK as "no error" (status.Err() is nil),
-// so a non-nil error cannot travel with it; see DESIGN.md §4.4.
-var GrpcCodeSweep = []int{1, 2, 3, 4, 5, 6, 7, 8, 9, 10, 11, 12, 13, 14, 15, 16, 17, 99}
+// Code 0 (OK) is skipped by C20 only: gRPC defines OK as "no error"
+// (status.Err() is nil), so a non-nil error cannot travel with it; see
+// DESIGN.md §4.4. Everywhere else it is an annotation like any other.
+var GrpcCodeSweep = []int{0, 1, 2, 3, 4, 5, 6, 7, 8, 9, 10, 11, 12, 13, 14, 15, 16, 17, 99}
 
 // All is the full alphabet, simplest first within each kind.
 var (
@@ -57,6 +58,19 @@ func reg(op *Op) *Op {
 		Wrappers = append(Wrappers, op)
 	}
 	return op
+}
+
+// mixedVerbs: one format with several verbs and argument kinds (int, Safe
+// value, quoted string, bytes in hex, nil, float with width/precision, struct).
+const mixedVerbs = " %d %v %q %x %v %6.2f %v"
+
+type mixedStruct struct {
+	A int
+	B string
+}
+
+func mixedText(s []string) string {
+	return fmt.Sprintf(pct(s[0])+mixedVerbs, 42, s[1], s[2], []byte("ab"), nil, 3.14159, mixedStruct{1, "b"})
 }
 
 func pct(s string) string { return strings.ReplaceAll(s, "%", "%%") }
@@ -207,6 +221,11 @@ func init() {
 		Model: func(s []string, _ *Node, _ []*Node) *Node {
 			return Stack(libLeaf(s[0]+" "+s[1], s[:1], s[1:]))
 		}})
+	reg(&Op{Name: "Newf_mixed", Kind: KLeaf, Slots: slots(safe("fmt", "safearg"), unsafe("qarg")), Class: "lib-leaf", Lib: true,
+		Build: func(s []string, _ error, _ []error) error {
+			return errors.Newf(pct(s[0])+mixedVerbs, 42, errors.Safe(s[1]), s[2], []byte("ab"), nil, 3.14159, mixedStruct{1, "b"})
+		},
+		Model: func(s []string, _ *Node, _ []*Node) *Node { return Stack(libLeaf(mixedText(s), s[:2], s[2:])) }})
 	reg(&Op{Name: "Newf_s", Kind: KLeaf, Slots: safe("fmt", "safearg"), Class: "lib-leaf", Lib: true,
 		Build: func(s []string, _ error, _ []error) error { return errors.Newf(pct(s[0])+" %s", errors.Safe(s[1])) },
 		Model: func(s []string, _ *Node, _ []*Node) *Node { return Stack(libLeaf(s[0]+" "+s[1], s, nil)) }})
@@ -298,6 +317,20 @@ func init() {
 	reg(&Op{Name: "net.DNSError", Kind: KLeaf, Slots: unsafe("err", "name"), Class: "foreign-leaf", Unreg: true,
 		Build: func(s []string, _ error, _ []error) error { return &net.DNSError{Err: s[0], Name: s[1]} },
 		Model: func(s []string, _ *Node, _ []*Node) *Node { return foreignLeaf("lookup "+s[1]+": "+s[0], s[0], s[1]) }})
+	// the same with the resolver's flags set (Timeout()/NotFound behaviour is
+	// lost in transit for this unregistered type, hence rendering properties only)
+	for _, fl := range []struct {
+		name              string
+		timeout, notFound bool
+	}{{"net.DNSError_timeout", true, false}, {"net.DNSError_notfound", false, true}} {
+		fl := fl
+		reg(&Op{Name: fl.name, Kind: KLeaf, Slots: unsafe("err", "name"), Class: "foreign-leaf", Unreg: true,
+			QuirkOf: "net.DNSError", QuirkFor: []string{"C03", "C06", "C09", "C10", "C12"},
+			Build: func(s []string, _ error, _ []error) error {
+				return &net.DNSError{Err: s[0], Name: s[1], IsTimeout: fl.timeout, IsNotFound: fl.notFound}
+			},
+			Model: func(s []string, _ *Node, _ []*Node) *Node { return foreignLeaf("lookup "+s[1]+": "+s[0], s[0], s[1]) }})
+	}
 	reg(&Op{Name: "ut.AsTargetLeaf", Kind: KLeaf, Slots: unsafe("from"), Class: "user-leaf", Unreg: true,
 		Build: func(s []string, _ error, _ []error) error { return &ut.AsTarget{From: s[0]} },
 		Model: func(s []string, _ *Node, _ []*Node) *Node { return foreignLeaf("as-target from "+s[0], s[0]) }})
@@ -323,7 +356,13 @@ func init() {
 	// is the special-case printing of sentinel-equivalent leaves, which
 	// concerns the rendering and redaction properties
 	osl.QuirkFor = []string{"C03", "C06", "C09", "C10", "C12"}
+	// texts that embed the constant text of a sentinel
+	for _, st := range []string{context.DeadlineExceeded.Error(), context.Canceled.Error(), os.ErrInvalid.Error(), os.ErrPermission.Error(),
+		os.ErrExist.Error(), os.ErrNotExist.Error(), os.ErrClosed.Error(), os.ErrDeadlineExceeded.Error()} {
+		osl.QuirkStrings = append(osl.QuirkStrings, st+" ({T})", st+": {T}", st+" {T}", st+"\n{T}", "{T}: "+st, "{T} "+st)
+	}
 	reg(osl)
+	uleaf("ut.TypeIsLeaf", true, func(m string) error { return &ut.TypeIsLeaf{Msg: m} })
 	uleaf("ut.RegIsLeaf", false, func(m string) error { return &ut.RegIsLeaf{Msg: m} })
 	uleaf("ut.AsLeaf", false, func(m string) error { return &ut.AsLeaf{Msg: m} })
 	uleaf("ut.FmtoLeaf", true, func(m string) error { return &ut.FmtoLeaf{Msg: m} })
@@ -401,6 +440,14 @@ func init() {
 	reg(&Op{Name: "ut.UnwrapW", Kind: KWrap, Slots: unsafe("msg"), Class: "user-prefix", Unreg: true, Core: true,
 		Build: func(s []string, c error, _ []error) error { return &ut.UnwrapW{Msg: s[0], Cause: c} },
 		Model: func(s []string, c *Node, _ []*Node) *Node { return userPrefix(s[0], c) }})
+	reg(&Op{Name: "Newf_w_indexed", Kind: KWrap, Slots: safe("fmt"), Class: "fullmsg", Lib: true,
+		Build: func(s []string, c error, _ []error) error { return errors.Newf("%[2]s: %[1]w", c, errors.Safe(s[0])) },
+		Model: func(s []string, c *Node, _ []*Node) *Node {
+			f := fullMsg(s[0]+": "+c.Text, c)
+			f.Lib = true
+			f.Safe = s
+			return Stack(Secondary(f, c))
+		}})
 	reg(&Op{Name: "Newf_w", Kind: KWrap, Slots: safe("fmt"), Class: "fullmsg", Lib: true, Core: true,
 		Build: func(s []string, c error, _ []error) error { return errors.Newf(pct(s[0])+": %w", c) },
 		Model: func(s []string, c *Node, _ []*Node) *Node {
@@ -416,6 +463,13 @@ func init() {
 	reg(&Op{Name: "Wrapf_u", Kind: KWrap, Slots: slots(safe("fmt"), unsafe("arg")), Class: "prefix", Lib: true,
 		Build: func(s []string, c error, _ []error) error { return errors.Wrapf(c, pct(s[0])+" %s", s[1]) },
 		Model: func(s []string, c *Node, _ []*Node) *Node { return Stack(libPrefix(s[0]+" "+s[1], c, s[:1], s[1:])) }})
+	reg(&Op{Name: "Wrapf_mixed", Kind: KWrap, Slots: slots(safe("fmt", "safearg"), unsafe("qarg")), Class: "prefix", Lib: true,
+		Build: func(s []string, c error, _ []error) error {
+			return errors.Wrapf(c, pct(s[0])+mixedVerbs, 42, errors.Safe(s[1]), s[2], []byte("ab"), nil, 3.14159, mixedStruct{1, "b"})
+		},
+		Model: func(s []string, c *Node, _ []*Node) *Node {
+			return Stack(libPrefix(mixedText(s), c, s[:2], s[2:]))
+		}})
 	reg(&Op{Name: "Wrapf_s", Kind: KWrap, Slots: safe("fmt", "safearg"), Class: "prefix", Lib: true,
 		Build: func(s []string, c error, _ []error) error {
 			return errors.Wrapf(c, pct(s[0])+" %s", errors.Safe(s[1]))
@@ -457,6 +511,23 @@ func init() {
 	annot("WithContextTags", slots(safe("key"), unsafe("value")), func(s []string, c error) error {
 		return errors.WithContextTags(c, tagCtx("k"+s[0], s[1]))
 	}, func(s []string, n *Node) { n.Tags = [][2]string{{"k" + s[0], s[1]}} })
+	// the same context annotated twice (a request context reused by two layers)
+	reg(&Op{Name: "WithContextTags_twice", Kind: KWrap, Slots: slots(safe("key"), unsafe("value")), Class: "annotation", Lib: true,
+		Build: func(s []string, c error, _ []error) error {
+			ctx := tagCtx("k"+s[0], s[1])
+			return errors.WithContextTags(errors.WithContextTags(c, ctx), ctx)
+		},
+		Model: func(s []string, c *Node, _ []*Node) *Node {
+			in := Annot(c)
+			in.Safe, in.Unsafe = s[:1], s[1:]
+			in.Tags = [][2]string{{"k" + s[0], s[1]}}
+			out := Annot(in)
+			out.Safe, out.Unsafe = s[:1], s[1:]
+			out.Tags = [][2]string{{"k" + s[0], s[1]}}
+			return out
+		}})
+	annot("WithTelemetry_emptykeys", nil, func(s []string, c error) error { return errors.WithTelemetry(c, []string{}...) },
+		func(s []string, n *Node) {})
 	annot("WithContextTags_safe", safe("key", "value"), func(s []string, c error) error {
 		return errors.WithContextTags(c, tagCtx("k"+s[0], errors.Safe(s[1])))
 	}, func(s []string, n *Node) { n.Tags = [][2]string{{"k" + s[0], s[1]}} })
